@@ -66,6 +66,10 @@ CHECKS = {
          "Quick: 453 epochs (every 40th year -2000..4000, 3 phases) x 8 planets x 10 clauses, the 0/360 longitude seam of every planet at 6 eras probed at +-1e-7..1e-3 day and at the FK5/aberration offsets, 720-step walks over one orbit at 2 eras, 185 boundary instants x 8 planets at one-second steps. Thorough: every 10 days over the whole range (219 146 epochs x 8) and daily walks over two orbits at 4 eras.",
          "Real-valued quantifier: lattice of epochs; oracles use the library's own orbital elements and kepler_equation (C11) and the module's own tables; the direct-summation allowance for Mercury's longitude is stated in DESIGN.md.",
          "DESIGN.md 3/C07"),
+ "C08": (EX, "exhaustive epoch lattices with library-against-itself oracles: reflection Sun/Earth, of-date position carried to J2000/B1950/9 equinoxes by the library's own precession, IAU obliquity cubic, 18.6-year nutation term, coarse vs VSOP87 Sun, full product instant x date-argument form",
+         "162 epochs 1000..3000 (all seasons) x 11 target frames for the frame clauses, every 25th year -2000..4000 x 4 seasons for reflection/obliquity/nutation, every 73 days 1800..2200 for the coarse formulas, 12 instants x 7 argument forms. Three genuine, test-pinned defects of the frame functions are known findings accepted only at the recorded epochs with the recorded deviation (findings_data/), so any other change of those functions is still reported.",
+         "Real-valued quantifier: epoch lattice; precession (C06) and VSOP87 (C07) are the reference.",
+         "DESIGN.md 3/C08"),
 }
 
 NOT_YET = {}
